@@ -148,6 +148,19 @@ def child_env(extra=None):
     return env
 
 
+def _die_with_parent():
+    """preexec_fn of the shard interpreters: SIGKILL when the check process that started them goes
+    away (a tool that times a check out kills only that process; shards spinning on would starve
+    every later run)."""
+    try:
+        import ctypes
+        import signal
+
+        ctypes.CDLL("libc.so.6", use_errno=True).prctl(1, signal.SIGKILL)  # PR_SET_PDEATHSIG
+    except Exception:  # noqa
+        pass
+
+
 def run_shards(module, func, arglist, timeout, workers=None, env_list=None):
     """Run `module.func(Shard, **args)` once per element of arglist, each in its own
     interpreter.  Returns a list of dicts: the shard JSON, or {"error": ...,
@@ -167,8 +180,9 @@ def run_shards(module, func, arglist, timeout, workers=None, env_list=None):
                 stdout=subprocess.PIPE,
                 stderr=subprocess.PIPE,
                 timeout=timeout,
-                env=env,
+                env=dict(env, VERIF_SHARD_DEADLINE=str(int(timeout) + 60)),
                 cwd=HERE,
+                preexec_fn=_die_with_parent,
             )
         except subprocess.TimeoutExpired:
             return {"error": f"shard {i} timed out after {timeout}s", "kind": "timeout"}
